@@ -47,8 +47,9 @@ def attrs_text(attrs):
     return "(* " + ", ".join(k if v is None else "%s = %s" % (k, v) for k, v in attrs.items()) + " *)\n"
 
 
-def render_module(m, style="header", comments=False):
+def render_module(m, style="header", comments=False, alt=False):
     o = []
+    late = []
     w = o.append
     if m.get("celldefine"):
         w("`celldefine")
@@ -68,22 +69,45 @@ def render_module(m, style="header", comments=False):
         w("(" + ",\n ".join(plist_entry(p, True) for p in m["ports"]) + ");")
     else:
         w("(" + ", ".join(plist_entry(p, False) for p in m["ports"]) + ");")
-    for p in m["ports"]:
-        if alias(p):
-            # the direction of an aliased header port is declared on the nets behind it
-            for a in p[4]:
-                w("  %s %s;" % (dirs[p[1]], esc(a)))
-        elif style != "ansi":
-            w("  %s %s%s;" % (dirs[p[1]], rng(p[2], p[3]), esc(p[0])))
-            if comments:
-                w("  // after a port declaration")
-    for x in m.get("wires", ()):
-        w("  %swire %s%s;" % (attrs_text(x[3]) if len(x) > 3 and x[3] else "", rng(x[1], x[2]), esc(x[0])))
+    if alt and style != "ansi":
+        # the other spellings of the same declarations: one statement per (direction, range) listing
+        # all its ports, a net type after the direction
+        groups = {}
+        for p in m["ports"]:
+            if alias(p):
+                for a in p[4]:
+                    groups.setdefault((p[1], None, None), []).append(a)
+            else:
+                groups.setdefault((p[1], p[2], p[3]), []).append(p[0])
+        for (d, hi, lo), names in groups.items():
+            w("  %s %s%s%s;" % (dirs[d], PORT_VAR.get(d, ""), rng(hi, lo), ", ".join(esc(x) for x in names)))
+    else:
+        for p in m["ports"]:
+            if alias(p):
+                # the direction of an aliased header port is declared on the nets behind it
+                for a in p[4]:
+                    w("  %s %s;" % (dirs[p[1]], esc(a)))
+            elif style != "ansi":
+                w("  %s %s%s;" % (dirs[p[1]], rng(p[2], p[3]), esc(p[0])))
+                if comments:
+                    w("  // after a port declaration")
+    if alt:
+        groups = {}
+        for k, x in enumerate(m.get("wires", ())):
+            if len(x) > 3 and x[3]:
+                w("  %s%s %s%s;" % (attrs_text(x[3]), wire_type(k), rng(x[1], x[2]), esc(x[0])))
+            else:
+                groups.setdefault((wire_type(k), x[1], x[2]), []).append(x[0])
+        for (t, hi, lo), names in groups.items():
+            w("  %s %s%s;" % (t, rng(hi, lo), ", ".join(esc(x) for x in names)))
+    else:
+        for x in m.get("wires", ()):
+            w("  %swire %s%s;" % (attrs_text(x[3]) if len(x) > 3 and x[3] else "", rng(x[1], x[2]), esc(x[0])))
     if comments:
         w("  /* block comment\n     over two lines */")
     for x in m.get("insts", ()):
         head = attrs_text(x.get("attrs")) + "  " + esc(x["module"])
-        if x.get("params"):
+        if x.get("params") and not alt:
             head += " #(" + ", ".join(".%s(%s)" % kv for kv in x["params"].items()) + ")"
         head += " " + esc(x["name"])
         sep = ", // first comment\n   // second comment in a row\n   /* and a block */ " if comments == "dense" else ", "
@@ -94,6 +118,11 @@ def render_module(m, style="header", comments=False):
         w("%s (%s);" % (head, body))
         if comments:
             w("  // between instances")
+        if alt:
+            # parameters given by defparam: the first right behind its instance, the others after all instances
+            for n, kv in enumerate((x.get("params") or {}).items()):
+                (o if n == 0 else late).append("  defparam %s.%s = %s;" % ((esc(x["name"]),) + kv))
+    o.extend(late)
     for lhs, rhs in m.get("assigns", ()):
         w("  assign %s = %s;" % (expr_text(lhs), expr_text(rhs)))
     w("endmodule")
@@ -102,12 +131,31 @@ def render_module(m, style="header", comments=False):
     return "\n".join(o) + "\n"
 
 
-def render(vad, order=None, style="header", comments=False):
+PORT_VAR = {"in": "wire ", "out": "reg "}
+WIRE_TYPES = ("wire", "reg", "tri0", "tri1")
+
+
+def wire_type(k):
+    return WIRE_TYPES[k % len(WIRE_TYPES)]
+
+
+SKIPPED = ("`ifdef NEVER_DEFINED\nmodule ghost (input z);\n  leaf never (.i(z));\nendmodule\n`endif\n\n"
+           "primitive udp_x (o, i);\n  output o;\n  input i;\n  table\n    0 : 1;\n    1 : 0;\n  endtable\nendprimitive\n\n")
+
+
+def render(vad, order=None, style="header", comments=False, alt=False):
+    """alt=True: the same design in the other spellings the reader documents: `timescale, an `ifdef
+    block of an undefined macro and a UDP (both skipped), comma lists, net types on ports and wires,
+    parameters by defparam."""
     mods = [m for m in vad["modules"] if m.get("declared", True)]
     order = order if order is not None else list(range(len(mods)))
     text = "// independent writer\n" if comments else ""
-    for i in order:
-        text += render_module(mods[i], style, comments) + "\n"
+    if alt:
+        text += "`timescale 1 ps / 1 ps\n"
+    for n, i in enumerate(order):
+        if alt and n == 1:
+            text += SKIPPED
+        text += render_module(mods[i], style, comments, alt) + "\n"
     return text
 
 
@@ -142,7 +190,20 @@ def expand(e, nets):
     return bits
 
 
-def expected(vad):
+def cable_types(m, style="header", alt=False):
+    """declared net type per cable of a module ('wire' when the text gives none)."""
+    out = {}
+    if alt and style != "ansi":
+        for p in m["ports"]:
+            for a in (p[4] if len(p) > 4 and p[4] else [p[0]]):
+                if p[1] in PORT_VAR:
+                    out[a] = PORT_VAR[p[1]].strip()
+    for k, x in enumerate(m.get("wires", ())):
+        out[x[0]] = wire_type(k) if alt else "wire"
+    return out
+
+
+def expected(vad, style="header", alt=False):
     """per non-primitive module: cables {name: (width, lower)}, connectivity {(cable, index): set(endpoints)},
     instances {name: (module, params, attrs)}, assigns multiset; per primitive module: ports."""
     mods = {m["name"]: m for m in vad["modules"]}
@@ -191,7 +252,10 @@ def expected(vad):
             lb, rb = list(reversed(expand(lhs, nets))), list(reversed(expand(rhs, nets)))
             # the documented representation fixes which side is which, not a pin order: bit pairs
             assigns.append((len(lb), frozenset(zip((touch(b) for b in lb), (touch(b) for b in rb)))))
-        out["modules"][m["name"]] = {"cables": cables, "conn": {k: frozenset(v) for k, v in conn.items()},
+        types = cable_types(m, style, alt)
+        out["modules"][m["name"]] = {"ctypes": {k: types.get(k, "wire") for k in cables},
+                                     "timescale": "1 ps / 1 ps" if alt else None,
+                                     "cables": cables, "conn": {k: frozenset(v) for k, v in conn.items()},
                                      "insts": insts, "assigns": sorted(assigns, key=repr),
                                      "ports": [(p[0], p[1], len(p[4]), 0) if len(p) > 4 and p[4] else
                                                (p[0], p[1], 1 if p[2] is None else p[2] - p[3] + 1, 0 if p[2] is None else p[3]) for p in m["ports"]],
